@@ -28,7 +28,7 @@ RULE = (
     "grid, tensor, bc and bc_values are digested before / after (purity); MVEM also on 5 valid "
     "NON-CONVEX (dart quadrilateral) grids, plain and embedded; sequences: ONE RT0 / MVEM object and "
     "ONE tensor object per K used for two grids in a row (same sizes / different topology; same "
-    "topology / different geometry; the same grid object moved), incl. RT0 followed by MVEM on the "
+    "topology / different geometry; the same grid object moved, keeping its data dictionary), incl. RT0 followed by MVEM on the "
     "same tensor objects; MVEM also on 4 prism grids (3- and 4-node faces)"
 )
 ASSUMPTIONS = [
@@ -262,7 +262,13 @@ def _run_single(case, shared=None) -> Outcome:
             pf = c0 + grad @ xf_o
             bcv = np.zeros(nf)
             bcv[bf] = pf[bf]
-            data = pp.initialize_data({}, KW, {"second_order_tensor": perm, "bc": bc, "bc_values": bcv})
+            params = {"second_order_tensor": perm, "bc": bc, "bc_values": bcv}
+            if shared is not None and shared["kind"] == "moved":
+                # the SAME data dictionary follows the moved grid object: whatever an earlier
+                # discretize() left in it (matrices, cached helpers) is still there
+                data = pp.initialize_data(shared.setdefault("data", {}).setdefault((kname, label), {}), KW, params)
+            else:
+                data = pp.initialize_data({}, KW, params)
             dig0 = G.digest(g, perm, bc, bcv)
             for npass in range(2 if reuse else 1):  # pass 2: same grid, tensor, bc and data dictionary
                 tag = "" if npass == 0 else "/reuse"
